@@ -2,11 +2,13 @@
 use serde_json::{Value, json};
 use std::path::Path;
 
+pub mod fmt;
 pub mod run;
 
 pub fn dispatch(case: &Value, dir: &Path) -> Value {
     match case.get("op").and_then(|x| x.as_str()) {
         Some("run") => run::op_run(case, dir),
+        Some("fmt") => fmt::op_fmt(case, dir),
         Some(op) => json!({"r": "BADCASE", "msg": format!("unknown op {op}")}),
         None => json!({"r": "BADCASE", "msg": "no op"}),
     }
